@@ -55,7 +55,7 @@ def judge(req, impl, f, prev):
 
 
 SPEC = dict(
-    prop='C11', lean_mod='Rivia.Props.C11sym', gen=gen, judge=judge,
+    prop='C11', lean_mod='Rivia.Props.C11sym,Rivia.Props.C01B', gen=gen, judge=judge,
     foreign_classes=('empty_lines_noop', 'listing_includes_links', 'moved_link_rel_stale'),
     rule='(1) pure: sys::mode on all 512 permission values x all 189 well-formed single clauses x {dir, file, link-to-file, link-to-dir}, random double clauses and random malformed strings, against the Lean state machine and the grammar (coverage.pure_*); '
          '(2) sessions: permission-heavy random histories over the bounded namespace with every builder option combination, judged against the reference tree filesystem (exactly the selected entries change, to exactly the requested value, links and type bits untouched). distinct = distinct (pre-state, call) pairs',
